@@ -87,6 +87,8 @@ class Prop(SeqProp):
                 a = rng.randint(-1, tot + 2)
                 b = a + rng.choice([0, 1, 1, 2, 5, tot + 3])
                 ivs.append((a, b))
+            # "no upper limit" written as a huge number, and bounds far outside what a machine word holds
+            ivs[rng.randrange(len(ivs))] = rng.choice([(0, 10 ** 20), (-1, 2 ** 63), (-10 ** 30, 10 ** 30), (1, 2 ** 64 + 1)])
             yield self.mk(scores, ivs)
 
     def exhaustive(self, tier):
